@@ -287,11 +287,11 @@ fn program_case(ctx: &mut Ctx, bytes: &[u8]) -> Vec<Violation> {
     // the reference only serves to keep memory requests out (repetition by huge counts)
     let rr = super::super::progcheck::reference(&prog, 200_000);
     // (after an unspecified `int * string` the reference no longer knows the sizes involved)
-    if rr.unspecified.as_deref().map(|u| u.contains("budget") || u.contains("operator *")).unwrap_or(false) {
+    let src = super::super::ast::render(&prog);
+    if super::super::progcheck::memory_risk(&rr, &src) {
         ctx.excluded(1);
         return vec![];
     }
-    let src = super::super::ast::render(&prog);
     ctx.case(hash_str(&src), true);
     ctx.class("program");
     guard("programs", "src", &src);
